@@ -1,1 +1,258 @@
-// tsread
+//! # tsread — generated TypeScript artifacts read as data
+//!
+//! ## README (for builders of C09 / C11 / C15 / C25 / C26 / C27 and the node runtime)
+//!
+//! ```ignore
+//! // 1. build an artifact set
+//! let (artifacts, _stats) = artifact_content::get_artifact_path_and_content(&state.db)?;
+//! let set = tsread::ArtifactSet::from_artifacts(&artifacts);          // in memory, no disk
+//! let set = tsread::ArtifactSet::from_dir(Path::new(".../__isograph"))?; // or a directory
+//! let set = tsread::ArtifactSet::from_files(vec![("Query/X/query_text.ts".into(), text)]);
+//!
+//! // 2. look at modules; keys are artifact-relative paths with '/' ("Query/X/entrypoint.ts", "iso.ts")
+//! let m = &set.files["Query/X/entrypoint.ts"];
+//! assert!(m.parse_errors.is_empty());
+//! let entry = m.default_export.as_ref().unwrap();           // Val::Object
+//! let text_ref = entry.get("networkRequestInfo").unwrap().get("operation").unwrap().get("text").unwrap();
+//! let text = set.deref(text_ref).as_str().unwrap();          // follows the import into query_text.ts:
+//!                                                            // the COOKED string the JS runtime sees
+//! // shortcuts
+//! set.query_text("Query/X/query_text.ts");                   // Option<&str>
+//! set.default_of("Query/X/resolver_reader.ts");              // reader artifacts are `() => ({…})`:
+//!                                                            // Val::Function{returns}; use .call0()
+//! set.deref(v).call0().get("readerAst");
+//!
+//! // 3. types
+//! let t = set.files["Pet/X/param_type.ts"].exported_type().unwrap();   // TypeAlias{name, ty: TsTy}
+//! let data = t.ty.prop("data").unwrap();                               // TsProp{name, optional, readonly, ty, doc}
+//! let (inner, nullable) = data.ty.split_nullable();
+//!
+//! // 4. JSON for the node runtime: every module with default/named exports, import references
+//! //    as {"$import": {specifier, export, target, path}}, functions as {"$function": …}
+//! let json = set.to_json();
+//! ```
+//!
+//! What is evaluated: object / array / string / number / boolean / null literals, `as const`,
+//! `satisfies`, `as T`, template literals (substitutions allowed when they evaluate to primitives),
+//! unary `-` `+` `!` `void`, `+` on two strings or numbers, identifiers (→ `undefined`, the
+//! module-level `const` initialiser, a function declaration, or an `Val::Import` reference),
+//! shorthand properties, object/array spread of evaluable values, member access on evaluated
+//! objects/arrays/namespace imports, arrow functions and function expressions (`Val::Function`,
+//! `returns` = the evaluated expression body or single `return`), `import('…')` (`Val::Promise` of
+//! the namespace reference) and `.then(m => …)` on such a promise, calls of local zero-parameter
+//! functions. Everything else is `Val::Opaque(source text)`: never guessed.
+//!
+//! String values are **cooked by this crate from the raw source text** following ECMA-262
+//! (`jsstr`), not taken from swc (swc's value is wrong for lone surrogates); every literal is also
+//! compared with swc's value and a disagreement is reported in `Module::issues`.
+//!
+//! Specifier resolution (`Target`): the artifact directory is called `__isograph`; a relative
+//! specifier is normalised against the importing file's directory. `Target::Inside(p)` = inside
+//! the artifact directory (`../__isograph/Query/X/entrypoint` from `iso.ts` is inside);
+//! `Target::Outside(p)` = a path relative to the directory that contains `__isograph` (the
+//! resolver source files); `Target::Package` = bare specifier. `resolved` is the file of the set
+//! the specifier names (exact, or with `.ts` appended).
+//!
+//! The property checks C13 (`c13::check_c13`) and C24 (`c24::check_c24`) live here as library
+//! functions over an `ArtifactSet`; see their module docs.
+
+pub mod c13;
+pub mod c24;
+pub mod jsstr;
+mod read;
+mod value;
+
+use std::collections::{BTreeMap, BTreeSet};
+use std::path::Path;
+
+pub use read::{read_module, resolve_specifier};
+pub use value::*;
+
+/// Name of the artifact directory (`isograph_config::ISOGRAPH_FOLDER`).
+pub const ARTIFACT_DIR_NAME: &str = "__isograph";
+
+/// A `.json` artifact (`tsconfig.json`, the persisted-documents file).
+#[derive(Clone, Debug)]
+pub struct JsonFile {
+    pub path: String,
+    pub source: String,
+    /// `Err(message)` when serde_json (strict RFC 8259 JSON) rejects the file
+    pub value: Result<serde_json::Value, String>,
+}
+
+/// All artifacts of one compile, keyed by artifact-relative path (`/` separators).
+#[derive(Clone, Debug, Default)]
+pub struct ArtifactSet {
+    /// every `.ts` file
+    pub files: BTreeMap<String, Module>,
+    /// every `.json` file
+    pub json: BTreeMap<String, JsonFile>,
+    /// any other file (a persisted-documents file with a custom, non-`.json` name)
+    pub other: BTreeMap<String, String>,
+    /// paths that occurred more than once in the input (the last content wins, as on disk)
+    pub duplicate_paths: Vec<String>,
+}
+
+/// The path under the artifact directory at which the compiler writes an artifact:
+/// `<file_name>` for root files, `<parent_entity_name>/<selectable_name>/<file_name>` otherwise
+/// (`artifact_content::FileSystemState::{recreate_all, diff}`).
+pub fn artifact_relative_path(p: &common_lang_types::ArtifactPath) -> String {
+    match &p.type_and_field {
+        None => p.file_name.to_string(),
+        Some(tf) => format!("{}/{}/{}", tf.parent_entity_name, tf.selectable_name, p.file_name),
+    }
+}
+
+/// `(relative path, content)` pairs of a compile result, in the compiler's order.
+pub fn artifacts_to_files(artifacts: &[common_lang_types::ArtifactPathAndContent]) -> Vec<(String, String)> {
+    artifacts
+        .iter()
+        .map(|a| (artifact_relative_path(&a.artifact_path), a.file_content.0.clone()))
+        .collect()
+}
+
+impl ArtifactSet {
+    /// From `(artifact-relative path, content)` pairs.
+    pub fn from_files(files: impl IntoIterator<Item = (String, String)>) -> ArtifactSet {
+        let mut contents: BTreeMap<String, String> = BTreeMap::new();
+        let mut duplicate_paths = vec![];
+        for (path, content) in files {
+            let path = path.replace('\\', "/");
+            if contents.insert(path.clone(), content).is_some() {
+                duplicate_paths.push(path);
+            }
+        }
+        let names: BTreeSet<String> = contents.keys().cloned().collect();
+        let mut set = ArtifactSet { duplicate_paths, ..Default::default() };
+        for (path, content) in contents {
+            if path.ends_with(".ts") {
+                let m = read_module(&path, &content, &names);
+                set.files.insert(path, m);
+            } else if path.ends_with(".json") {
+                let value = serde_json::from_str::<serde_json::Value>(&content).map_err(|e| e.to_string());
+                set.json.insert(path.clone(), JsonFile { path, source: content, value });
+            } else {
+                set.other.insert(path, content);
+            }
+        }
+        set
+    }
+
+    /// From the compiler's in-memory result.
+    pub fn from_artifacts(artifacts: &[common_lang_types::ArtifactPathAndContent]) -> ArtifactSet {
+        Self::from_files(artifacts_to_files(artifacts))
+    }
+
+    /// From an artifact directory on disk (recursively; files that are not UTF-8 are read lossily).
+    pub fn from_dir(dir: &Path) -> std::io::Result<ArtifactSet> {
+        fn walk(base: &Path, dir: &Path, out: &mut Vec<(String, String)>) -> std::io::Result<()> {
+            let mut entries: Vec<_> = std::fs::read_dir(dir)?.collect::<Result<_, _>>()?;
+            entries.sort_by_key(|e| e.file_name());
+            for e in entries {
+                let p = e.path();
+                if p.is_dir() {
+                    walk(base, &p, out)?;
+                } else {
+                    let rel = p.strip_prefix(base).unwrap().to_string_lossy().replace('\\', "/");
+                    let bytes = std::fs::read(&p)?;
+                    out.push((rel, String::from_utf8_lossy(&bytes).into_owned()));
+                }
+            }
+            Ok(())
+        }
+        let mut out = vec![];
+        walk(dir, dir, &mut out)?;
+        Ok(Self::from_files(out))
+    }
+
+    pub fn module(&self, path: &str) -> Option<&Module> {
+        self.files.get(path)
+    }
+
+    /// Default export of a module of the set.
+    pub fn default_of(&self, path: &str) -> Option<&Val> {
+        self.files.get(path)?.default_export.as_ref()
+    }
+
+    /// The value an import reference denotes, when it points into the set and the target module
+    /// has that export (one step; `Namespace` references have no single value).
+    pub fn follow(&self, r: &ImportRef) -> Option<&Val> {
+        let m = self.files.get(r.resolved.as_ref()?)?;
+        match &r.export {
+            ExportName::Default => m.default_export.as_ref(),
+            ExportName::Named(n) => m.named_exports.get(n),
+            ExportName::Namespace => None,
+        }
+    }
+
+    /// Follow import references (transitively) as long as they resolve inside the set; any other
+    /// value is returned unchanged. Cycle-safe.
+    pub fn deref<'a>(&'a self, v: &'a Val) -> &'a Val {
+        let mut cur = v;
+        for _ in 0..64 {
+            match cur {
+                Val::Import(r) => match self.follow(r) {
+                    Some(next) => cur = next,
+                    None => return cur,
+                },
+                _ => return cur,
+            }
+        }
+        cur
+    }
+
+    /// Cooked default export of a query-text artifact.
+    pub fn query_text(&self, path: &str) -> Option<&str> {
+        self.default_of(path)?.as_str()
+    }
+
+    /// Paths of all query-text artifacts (`query_text.ts`, `__refetch__query_text__N.ts`).
+    pub fn query_text_paths(&self) -> Vec<&str> {
+        self.files
+            .keys()
+            .filter(|p| {
+                let name = p.rsplit('/').next().unwrap_or(p);
+                name == "query_text.ts" || (name.starts_with("__refetch__query_text__") && name.ends_with(".ts"))
+            })
+            .map(|s| s.as_str())
+            .collect()
+    }
+
+    /// Paths of all files named `name` (e.g. `"entrypoint.ts"`).
+    pub fn paths_named(&self, name: &str) -> Vec<&str> {
+        self.files
+            .keys()
+            .filter(|p| p.rsplit('/').next().unwrap_or(p) == name)
+            .map(|s| s.as_str())
+            .collect()
+    }
+
+    /// The whole module graph as JSON: `{"files": {path: Module::to_json()}, "json": {path: value|null}}`.
+    pub fn to_json(&self) -> serde_json::Value {
+        serde_json::json!({
+            "files": self.files.iter().map(|(k, m)| (k.clone(), m.to_json())).collect::<serde_json::Map<_, _>>(),
+            "json": self.json.iter().map(|(k, j)| (k.clone(), j.value.clone().unwrap_or(serde_json::Value::Null))).collect::<serde_json::Map<_, _>>(),
+            "other": self.other.keys().collect::<Vec<_>>(),
+        })
+    }
+}
+
+/// File name with numbers replaced by `N` (`__refetch__3.ts` → `__refetch__N.ts`): the artifact
+/// *kind*, used in failure signatures.
+pub fn file_kind(path: &str) -> String {
+    let name = path.rsplit('/').next().unwrap_or(path);
+    let mut out = String::new();
+    let mut in_digits = false;
+    for c in name.chars() {
+        if c.is_ascii_digit() {
+            if !in_digits {
+                out.push('N');
+            }
+            in_digits = true;
+        } else {
+            in_digits = false;
+            out.push(c);
+        }
+    }
+    out
+}
